@@ -87,7 +87,7 @@ theorem base_eq_curCharged {mx : Nat} {l : Lvl} {ws : List Win} (inv : TInv mx l
     simp [curCharged, hc]
   | cons w rest =>
     obtain ⟨hs, hc, _⟩ := inv.head w rest rfl
-    simp only [curCharged, outside, elapsed, hs, hc]
+    simp [curCharged, outside, elapsed, hs, hc]
 
 theorem incLevel_res {mx : Nat} {l : Lvl} {ws : List Win} (inv : TInv mx l ws) (win r t : Nat)
     (hfresh : l.memo.lookup r = none) :
@@ -125,7 +125,7 @@ theorem incLevel_inv {mx : Nat} {l : Lvl} {ws : List Win} (inv : TInv mx l ws) (
         refine ⟨h1, h2, ?_⟩
         dsimp only
         split
-        · simp [memoTrue]
+        · simp only [memoTrue, List.filter_nil, List.length_nil]; omega
         · simp [memoTrue_cons]; exact h3
       · exact inv.all
     · -- increased
@@ -145,10 +145,9 @@ theorem incLevel_inv {mx : Nat} {l : Lvl} {ws : List Win} (inv : TInv mx l ws) (
           refine ⟨?_, ?_, ?_⟩
           · simp only [hs]; split <;> rfl
           · simp [hc]
-          · simp only [memoTrue_cons, hc, ite_self]
-            split
-            · simp [memoTrue]
-            · simp [hm]
+          · by_cases hd : win ≤ elapsed l t
+            · simp [hd, memoTrue_cons, memoTrue]
+            · simp [hd, memoTrue_cons, hm]
         · intro w hw
           simp only [chargeWin, List.mem_singleton] at hw
           subst hw
@@ -271,5 +270,218 @@ theorem TInv.counter_le {mx : Nat} {l : Lvl} {ws : List Win} (inv : TInv mx l ws
     have := (inv.head w rest rfl).2.1
     have := (inv.all w (by simp)).2
     omega
+
+/-! ### Chains -/
+
+/-- A pair `(id, definition)` that really is a quota of the configuration. -/
+def validPair (cfg : Cfg) (p : QId × QuotaCfg) : Prop := cfg.quotas[p.1]? = some p.2
+
+theorem chainFuel_valid (cfg : Cfg) : ∀ (n : Nat) (q : QId) (p : QId × QuotaCfg),
+    p ∈ chainFuel cfg n q → validPair cfg p := by
+  intro n
+  induction n with
+  | zero => intro q p h; simp [chainFuel] at h
+  | succ n ih =>
+    intro q p h
+    unfold chainFuel at h
+    cases hq : cfg.quotas[q]? with
+    | none => simp [hq] at h
+    | some c =>
+      simp only [hq, List.mem_cons] at h
+      rcases h with h | h
+      · subst h; exact hq
+      · cases hp : c.parent with
+        | none => simp [hp] at h
+        | some p' => simp only [hp] at h; exact ih p' p h
+
+theorem chain_valid (cfg : Cfg) (q : QId) : ∀ p ∈ chain cfg q, validPair cfg p :=
+  fun p h => chainFuel_valid cfg _ q p h
+
+/-! ### Schedules -/
+
+def Pc.todo : Pc → List (QId × QuotaCfg)
+  | .inc t _ => t
+  | .allowed t => t
+  | .dec t => t
+  | .done _ => []
+
+/-- Every level is related to the windows reconstructed from the log. -/
+def LevelsOk (cfg : Cfg) (st : St) (log : List LEv) : Prop :=
+  ∀ (k : Key) (c : QuotaCfg), cfg.quotas[k.1]? = some c → TInv c.max (st.at k) (tally c.win k log)
+
+theorem tally_cons_other (win : Nat) (k : Key) (e : LEv) (log : List LEv) (h : LEv.at k e = false) :
+    tally win k (e :: log) = tally win k log := by
+  simp [tally, h]
+
+theorem tally_cons_at (win : Nat) (k : Key) (e : LEv) (log : List LEv) (h : LEv.at k e = true) :
+    tally win k (e :: log) = tallyStep win (tally win k log) e := by
+  simp [tally, h]
+
+theorem stepThread_inv (cfg : Cfg) (st : St) (log : List LEv) (now tid : Nat) (th : Thread)
+    (hl : LevelsOk cfg st log) (hv : ∀ p ∈ th.pc.todo, validPair cfg p) :
+    LevelsOk cfg (stepThread cfg st now tid th).1 ((stepThread cfg st now tid th).2.2 ++ log) ∧
+    (∀ p ∈ (stepThread cfg st now tid th).2.1.todo, validPair cfg p) := by
+  unfold stepThread
+  cases hpc : th.pc with
+  | done v => simpa [Pc.todo] using hl
+  | inc todo thenA =>
+    cases todo with
+    | nil =>
+      dsimp only
+      split
+      · exact ⟨by simpa using hl, fun p hp => chain_valid cfg th.q p (by simpa [Pc.todo] using hp)⟩
+      · exact ⟨by simpa using hl, by simp [Pc.todo]⟩
+    | cons ac rest =>
+      obtain ⟨a, c⟩ := ac
+      rw [hpc] at hv
+      have hac : validPair cfg (a, c) := hv (a, c) (by simp [Pc.todo])
+      dsimp only
+      constructor
+      · intro k c' hk
+        by_cases hkk : (a, groupOf c th.h) = k
+        · subst hkk
+          have hcc : c' = c := by
+            have : cfg.quotas[a]? = some c := hac
+            simp only at hk; rw [this] at hk; exact (Option.some.inj hk).symm
+          subst hcc
+          rw [St.at_set]
+          simp only [if_true, List.singleton_append]
+          rw [tally_cons_at _ _ _ _ (by simp [LEv.at])]
+          have := incLevel_inv (hl (a, groupOf c' th.h) c' hk) c'.win th.r now
+          cases hres : (incLevel c'.max c'.win (st.at (a, groupOf c' th.h)) th.r now).2 <;>
+            simp only [hres, tallyStep] at this ⊢ <;> simpa using this
+        · rw [St.at_set]
+          simp only [hkk, if_false, List.singleton_append]
+          rw [tally_cons_other _ _ _ _ (by simp [LEv.at]; exact hkk)]
+          exact hl k c' hk
+      · intro p hp
+        have hrest : ∀ p ∈ rest, validPair cfg p := fun p hp => hv p (by simp [Pc.todo, hp])
+        revert hp
+        split
+        · intro hp; exact hv p (by simp only [Pc.todo] at hp ⊢; simp [*] at hp ⊢)
+        · split
+          · intro hp; exact chain_valid cfg th.q p (by simpa [Pc.todo] using hp)
+          · intro hp; simp [Pc.todo] at hp
+  | allowed todo =>
+    cases todo with
+    | nil => exact ⟨by simpa using hl, by simp [Pc.todo]⟩
+    | cons ac rest =>
+      obtain ⟨a, c⟩ := ac
+      rw [hpc] at hv
+      have hac : validPair cfg (a, c) := hv (a, c) (by simp [Pc.todo])
+      have hrest : ∀ p ∈ rest, validPair cfg p := fun p hp => hv p (by simp [Pc.todo, hp])
+      dsimp only
+      have key : ∀ (b : Bool) (pre : List LEv), (∀ e ∈ pre, ∀ k, LEv.at k e = false) →
+          (allowedLevel (st.at (a, groupOf c th.h)) th.r).2 = b →
+          LevelsOk cfg (KMap.set st (a, groupOf c th.h) (allowedLevel (st.at (a, groupOf c th.h)) th.r).1)
+            (pre ++ LEv.allowed (a, groupOf c th.h) th.r b :: log) := by
+        intro b pre hpre hb k c' hk
+        have hpre' : tally c'.win k (pre ++ LEv.allowed (a, groupOf c th.h) th.r b :: log)
+            = tally c'.win k (LEv.allowed (a, groupOf c th.h) th.r b :: log) := by
+          induction pre with
+          | nil => rfl
+          | cons e pre ih =>
+            rw [List.cons_append, tally_cons_other _ _ _ _ (hpre e (by simp) k)]
+            exact ih (fun e he => hpre e (by simp [he]))
+        rw [hpre']
+        by_cases hkk : (a, groupOf c th.h) = k
+        · subst hkk
+          have hcc : c' = c := by
+            have : cfg.quotas[a]? = some c := hac
+            simp only at hk; rw [this] at hk; exact (Option.some.inj hk).symm
+          subst hcc
+          rw [St.at_set]
+          simp only [if_true]
+          rw [tally_cons_at _ _ _ _ (by simp [LEv.at])]
+          have := allowedLevel_inv (hl (a, groupOf c' th.h) c' hk) th.r
+          rw [hb] at this
+          cases b <;> simpa [tallyStep] using this
+        · rw [St.at_set]
+          simp only [hkk, if_false]
+          rw [tally_cons_other _ _ _ _ (by simp [LEv.at]; exact hkk)]
+          exact hl k c' hk
+      cases hb : (allowedLevel (st.at (a, groupOf c th.h)) th.r).2 with
+      | false =>
+        simp only [Bool.false_eq_true, if_false]
+        refine ⟨?_, by simp [Pc.todo]⟩
+        exact key false [LEv.verdict tid th.r th.q false] (by simp [LEv.at]) hb
+      | true =>
+        simp only [if_true]
+        cases rest with
+        | nil =>
+          refine ⟨?_, by simp [Pc.todo]⟩
+          exact key true [LEv.verdict tid th.r th.q true] (by simp [LEv.at]) hb
+        | cons x xs =>
+          refine ⟨?_, fun p hp => hrest p (by simpa [Pc.todo] using hp)⟩
+          exact key true [] (by simp) hb
+  | dec todo =>
+    cases todo with
+    | nil => exact ⟨by simpa using hl, by simp [Pc.todo]⟩
+    | cons ac rest =>
+      obtain ⟨a, c⟩ := ac
+      rw [hpc] at hv
+      have hac : validPair cfg (a, c) := hv (a, c) (by simp [Pc.todo])
+      have hrest : ∀ p ∈ rest, validPair cfg p := fun p hp => hv p (by simp [Pc.todo, hp])
+      dsimp only
+      refine ⟨?_, fun p hp => hrest p (by simpa [Pc.todo] using hp)⟩
+      intro k c' hk
+      by_cases hkk : (a, groupOf c th.h) = k
+      · subst hkk
+        have hcc : c' = c := by
+          have : cfg.quotas[a]? = some c := hac
+          simp only at hk; rw [this] at hk; exact (Option.some.inj hk).symm
+        subst hcc
+        rw [St.at_set]
+        simp only [if_true, List.singleton_append]
+        rw [tally_cons_at _ _ _ _ (by simp [LEv.at])]
+        simpa [tallyStep] using decLevel_inv (hl (a, groupOf c' th.h) c' hk) th.r
+      · rw [St.at_set]
+        simp only [hkk, if_false, List.singleton_append]
+        rw [tally_cons_other _ _ _ _ (by simp [LEv.at]; exact hkk)]
+        exact hl k c' hk
+
+/-- Invariant of the interleaving semantics. -/
+structure SysInv (cfg : Cfg) (s : Sys) : Prop where
+  lvl : LevelsOk cfg s.st s.log
+  thr : ∀ th ∈ s.threads, ∀ p ∈ th.pc.todo, validPair cfg p
+
+theorem SysInv.init (cfg : Cfg) (t0 : Nat) : SysInv cfg (Sys.init t0) := by
+  constructor
+  · intro k c _
+    simpa [Sys.init, St.at_init, tally] using TInv.init c.max
+  · intro th h; simp [Sys.init] at h
+
+theorem SysInv.act (cfg : Cfg) (s : Sys) (a : Act) (inv : SysInv cfg s) : SysInv cfg (Sys.act cfg s a) := by
+  cases a with
+  | spawn kind q r h =>
+    constructor
+    · exact inv.lvl
+    · intro th hth p hp
+      simp only [Sys.act, List.mem_append, List.mem_singleton] at hth
+      rcases hth with hth | hth
+      · exact inv.thr th hth p hp
+      · subst hth
+        apply chain_valid cfg q p
+        cases kind <;> simpa [spawnPc, Pc.todo] using hp
+  | tick d => exact ⟨inv.lvl, inv.thr⟩
+  | step tid =>
+    simp only [Sys.act]
+    cases hth : s.threads[tid]? with
+    | none => exact inv
+    | some th =>
+      have hmem : th ∈ s.threads := List.mem_of_getElem? hth
+      have := stepThread_inv cfg s.st s.log s.now tid th inv.lvl (inv.thr th hmem)
+      dsimp only
+      constructor
+      · exact this.1
+      · intro th' hth' p hp
+        rcases List.mem_or_eq_of_mem_set hth' with h | h
+        · exact inv.thr th' h p hp
+        · subst h; exact this.2 p hp
+
+theorem SysInv.run (cfg : Cfg) (acts : List Act) : ∀ (s : Sys), SysInv cfg s → SysInv cfg (Sys.run cfg s acts) := by
+  induction acts with
+  | nil => intro s h; exact h
+  | cons a acts ih => intro s h; exact ih _ (SysInv.act cfg s a h)
 
 end LunarVerif.C01
